@@ -78,10 +78,10 @@ var scrNarrow = []rune{'a', 'b', 'c', 'x', 'Z', '0', '9', '#', '%', '$', '<', '>
 	0xe9, 0xdf, 0x3b1, 0x416, 0x5d0, 0x2500, 0x2502, 0x250c, 0x2588, 0x20ac}
 var scrWide = []rune{0x4e16, 0x754c, 0xac00, 0xff21, 0x3042, 0x1f600}
 var scrZero = []rune{0, 7, 8, 0xa, 0xd, 0x1b, 0x7f, 0x85, 0x9b, 0x200b, 0x200d, 0x2060, 0xfeff, 0x202e, 0x2028, 0x301, -1, 0x110000, 0xd800}
-var scrComb = [][]rune{nil, nil, nil, nil, {0x301}, {0x300, 0x302}, {0x20dd}}
+var scrComb = [][]rune{nil, nil, nil, nil, {0x301}, {0x300, 0x302}, {0x20dd}, {0xfe0f}}
 
 // legacyComb: combining lists for the legacy mix - marks no 8-bit set has, and Arabic harakat, which ISO 8859-6 has
-var legacyComb = [][]rune{nil, nil, {0x301}, {0x64e}, {0x651, 0x64e}, {0x300, 0x302}, {0x650}}
+var legacyComb = [][]rune{nil, nil, {0x301}, {0x64e}, {0x651, 0x64e}, {0x300, 0x302}, {0x650}, {0xfe0f}}
 
 // legacyRunes: runes that single-byte and CJK locales do or do not have, line-drawing runes with
 // ACS names, and a few with default fallbacks
